@@ -95,7 +95,8 @@ func keyGT(k *pgpKeyMat) []string {
 			curve = hxs(k.curve)
 		}
 	}
-	return []string{fmt.Sprintf("%X", fp[:]), fmt.Sprintf("%X", fp[12:]), hxs(algDisplay[k.algo]), size, curve}
+	// the key's creation date is the one in its own packet (not the date of whichever signature binds it now)
+	return []string{fmt.Sprintf("%X", fp[:]), fmt.Sprintf("%X", fp[12:]), hxs(algDisplay[k.algo]), size, curve, hxs(dateUTC(int64(k.created)))}
 }
 
 // buildPGP assembles: primary key, then for every identity its user ID packet and self-signature, then every subkey with
